@@ -433,10 +433,10 @@ structure Frame (α : Type) where
 
 def encodePkl (names : List Str) (t : List α) (xs : List (List α)) : Frame α := ⟨names.zip xs, t⟩
 
-/-- `read_pickle_names` / `read_data`: `df.insert(0, "Time", index)` raises ValueError when a column `Time` exists. -/
+/-- `read_pickle_names` / `read_data`: the column names, and the index stacked on top of the columns (since the F19b repair
+the index is no longer inserted as a column called `Time`, so no name is special). -/
 def decodePkl (f : Frame α) : Except Err (List Str × List α × List (List α)) :=
-  if (f.columns.map (·.1)).contains "Time".toList then .error .value
-  else .ok (f.columns.map (·.1), f.index, f.columns.map (·.2))
+  .ok (f.columns.map (·.1), f.index, f.columns.map (·.2))
 
 /-! #### SIMA h5 (`.h5`) -/
 
